@@ -231,7 +231,7 @@ def compiles(path, work):
 
 def choose_programs(ctx):
     progs = []
-    ngen, ncases, nrand = (2, 6, 1) if ctx.quick else (4, 12, 5)
+    ngen, ncases, nrand = (2, 6, 1) if ctx.quick else (3, 12, 3)
     s = ctx.seed * 7919
     tries = 0
     while sum(1 for p in progs if p["name"].startswith("gen")) < ngen and tries < 40:
@@ -367,8 +367,24 @@ def convert_events(paths, outc, outi):
     return spans_c, spans_i, nc, ni
 
 
-def tlc_trace(module, cfg, trace, timeout):
-    r = tlc(module, cfg=cfg, cwd=CODEC, workers=1, timeout=timeout, env={"TRACE": trace}, heap="4g")
+def tlc_pool(tasks, width=4):
+    """tasks: [(name, dict of tlc() arguments)] - small single-worker runs side by side (TLC start-up dominates them).
+    Returns {name: TlcResult}."""
+    from concurrent.futures import ThreadPoolExecutor
+
+    def one(it):
+        i, (name, kw) = it
+        time.sleep(0.15 * (i % width))       # tlc() names its scratch directory by the millisecond
+        return name, tlc(kw.pop("module"), cwd=CODEC, workers=kw.pop("workers", 1), heap="4g", **kw)
+    with ThreadPoolExecutor(max_workers=width) as ex:
+        return dict(ex.map(one, list(enumerate(tasks))))
+
+
+def trace_task(module, cfg, trace, timeout):
+    return dict(module=module, cfg=cfg, timeout=timeout, env={"TRACE": trace})
+
+
+def trace_result(r, trace):
     if r.timed_out:
         raise ToolError("TLC timed out validating " + trace)
     if not r.ok and r.violation is None:
@@ -377,7 +393,7 @@ def tlc_trace(module, cfg, trace, timeout):
 
 
 def rejected_at(r):
-    m = re.search(r'REJECTED at record", (\d+)', r.out)
+    m = re.search(r'REJECTED at record",\s*(\d+)', r.out)
     return int(m.group(1)) if m else None
 
 
@@ -391,6 +407,7 @@ def validate_events(ctx, hist, timeout):
         # and the quadratic forms of the invariants are then checked on real runs too
         (small if n <= 300 and len(small) < 6 else big).append((d, path, req, n))
     results = {}
+    plan = []
     for label, group, ccfg, icfg in (("with-history", small, "ClosureTraceH.cfg", "InternerTraceH.cfg"),
                                      ("plain", big, "ClosureTrace.cfg", "InternerTrace.cfg")):
         if not group:
@@ -398,8 +415,11 @@ def validate_events(ctx, hist, timeout):
         fc = os.path.join(ctx.work, "events_%s_closure.ndjson" % label)
         fi = os.path.join(ctx.work, "events_%s_interner.ndjson" % label)
         spans_c, spans_i, nc, ni = convert_events([g[1] for g in group], fc, fi)
-        for module, cfg, f, spans, n in (("ClosureTrace", ccfg, fc, spans_c, nc), ("InternerTrace", icfg, fi, spans_i, ni)):
-            r = tlc_trace(module, cfg, f, timeout)
+        plan += [(group, "ClosureTrace", ccfg, fc, spans_c, nc), (group, "InternerTrace", icfg, fi, spans_i, ni)]
+    done = tlc_pool([("%s|%s" % (m, c), trace_task(m, c, f, timeout)) for _, m, c, f, _, _ in plan], width=4)
+    if True:
+        for group, module, cfg, f, spans, n in plan:
+            r = trace_result(done["%s|%s" % (module, cfg)], f)
             ctx.tlc_stats(r, "%s %s: %d compilations, %d events" % (module, cfg, len(group), n))
             log(f"TLC {module} {cfg}: {len(group)} compilations, {n} events, {r.distinct} states, {r.seconds:.0f}s, ok={r.ok}")
             if r.ok:
@@ -439,12 +459,13 @@ def validate_events(ctx, hist, timeout):
     return results
 
 
-def negative_controls(ctx, hist):
+def negative_controls(ctx, hist, results):
     """the trace specs and Build must reject corrupted inputs, otherwise acceptance means nothing"""
-    # smallest recorded compilation with at least two pops and one known push
-    cands = sorted(((sum(1 for _ in open(p)), p) for d, (p, rq) in hist.event_files.items()))
+    # smallest recorded compilation that the trace specs accepted
+    cands = sorted(((sum(1 for _ in open(p)), p) for d, (p, rq) in hist.event_files.items() if results.get(d) and all(results[d])))
     if not cands:
-        raise ToolError("no event file for the negative controls")
+        ctx.extra["negative_controls"] = "skipped: no accepted event file to corrupt"
+        return []
     path = cands[0][1]
     raw = [json.loads(l) for l in open(path)]
     res = []
@@ -456,20 +477,17 @@ def negative_controls(ctx, hist):
                 f.write(json.dumps(e) + "\n")
         return p
 
+    tasks = []
+
     def run(name, evs, module, cfg, which):
         p = write(name, evs)
         fc = os.path.join(ctx.work, "neg_%s_c.ndjson" % name); fi = os.path.join(ctx.work, "neg_%s_i.ndjson" % name)
         convert_events([p], fc, fi)
-        r = tlc_trace(module, cfg, fc if which == "c" else fi, 300)
-        # a rejection is the spec refusing a record (or an invariant failing), not some other TLC error
-        rej = (not r.ok) and (rejected_at(r) is not None or "Invariant" in (r.violation or ""))
-        res.append({"control": name, "spec": module, "rejected": rej, "how": r.violation, "at_record": rejected_at(r)})
-        return r
+        f = fc if which == "c" else fi
+        tasks.append((name, module, f, trace_task(module, cfg, f, 300)))
 
-    r0 = run("unchanged", raw, "ClosureTrace", "ClosureTrace.cfg", "c")
-    if not r0.ok:
-        return res  # reported elsewhere
-    res[-1]["rejected"] = False
+    run("unchanged", raw, "ClosureTrace", "ClosureTrace.cfg", "c")
+    run("unchanged_interner", raw, "InternerTrace", "InternerTrace.cfg", "i")
     pops = [i for i, e in enumerate(raw) if e["ev"] == "pop"]
     # two pops (not necessarily adjacent in the file) exchanged: pops out of index order
     i, j = pops[len(pops) // 2 - 1], pops[len(pops) // 2]
@@ -494,7 +512,11 @@ def negative_controls(ctx, hist):
             bad = [dict(e) for e in raw]; bad[kn]["known"] = False
             run("intern_known_flipped", bad, "InternerTrace", "InternerTrace.cfg", "i")
     # Build
-    base = [r for r in hist.records][:40]
+    base, seen = [], set()
+    for r in hist.records:          # one record per request: a consistent history whatever the tool chain did
+        k = (r["stage"], r["kind"], r["input"], r["options"], r["builder"])
+        if k not in seen and len(base) < 40 and r["stage"] < 2:
+            seen.add(k); base.append(r)
     x = dict(base[0]); x["id"] = 100000; x["env"] = "negative-control"; x["output"] = "0" * 64
     for name, recs, inv in (("build_same_input_other_output", base + [x], "FunctionalConsistency"),
                             ("build_stage2_ne_stage3", base + [
@@ -505,13 +527,28 @@ def negative_controls(ctx, hist):
         with open(p, "w") as f:
             for rr in recs:
                 f.write(json.dumps(rr) + "\n")
-        r = tlc("Build", cfg="Build.cfg", cwd=CODEC, workers=1, timeout=300, env={"HISTORY": p}, heap="4g")
-        res.append({"control": name, "spec": "Build", "rejected": (not r.ok) and inv in (r.violation or ""), "how": r.violation})
+        tasks.append((name, "Build:" + inv, p, dict(module="Build", cfg="Build.cfg", timeout=300, env={"HISTORY": p})))
+    done = tlc_pool([(t[0], t[3]) for t in tasks], width=5)
+    for name, module, f, _ in tasks:
+        r = done[name]
+        if r.timed_out:
+            raise ToolError("TLC timed out on negative control " + name)
+        if module.startswith("Build:"):
+            res.append({"control": name, "spec": "Build", "rejected": (not r.ok) and module[6:] in (r.violation or ""), "how": r.violation})
+        else:
+            # a rejection is the spec refusing a record (or an invariant failing), not some other TLC error
+            rej = (not r.ok) and (rejected_at(r) is not None or "Invariant" in (r.violation or ""))
+            res.append({"control": name, "spec": module, "rejected": rej, "how": r.violation, "at_record": rejected_at(r)})
     ctx.extra["negative_controls"] = res
     for x in res:
-        if x["control"] != "unchanged" and not x["rejected"]:
+        if x["control"].startswith("unchanged"):
+            if not done[x["control"]].ok:
+                raise ToolError("the unchanged control trace is not accepted: %s" % x)
+            continue
+        if not x["rejected"]:
             raise ToolError("negative control %s was accepted by %s (%s): the spec binding is vacuous" % (x["control"], x["spec"], x["how"]))
     ctx.add("negative_controls_rejected", sum(1 for x in res if x["rejected"]))
+    ctx.add("positive_controls_accepted", sum(1 for x in res if x["control"].startswith("unchanged")))
     return res
 
 
@@ -687,8 +724,9 @@ def run(ctx):
             raise ToolError("tool chain binary missing: " + p)
 
     # 1. design level: the numbering mechanism, small scope exhaustive
+    mc = tlc_pool([(m, dict(module=m, cfg=c, workers=4, timeout=600)) for m, c in (("Closure", "ClosureMC.cfg"), ("Interner", "InternerMC.cfg"))], width=2)
     for module, cfg in (("Closure", "ClosureMC.cfg"), ("Interner", "InternerMC.cfg")):
-        r = tlc(module, cfg=cfg, cwd=CODEC, workers=4, timeout=600, heap="4g")
+        r = mc[module]
         tlc_must_pass(r, f"{module} {cfg}")
         ctx.tlc_stats(r, f"{module} small scope ({cfg})")
         log(f"TLC {module} {cfg}: {r.distinct} distinct states, {r.seconds:.0f}s")
@@ -728,8 +766,8 @@ def run(ctx):
 
     pybad = compare_requests(ctx, hist, reqs)
     validate_history(ctx, hist, pybad + (1 if boot_bad else 0))
-    validate_events(ctx, hist, 900 if ctx.quick else 2400)
-    negative_controls(ctx, hist)
+    results = validate_events(ctx, hist, 900 if ctx.quick else 2400)
+    negative_controls(ctx, hist, results)
 
     per = {}
     for r in hist.records:
